@@ -3,7 +3,7 @@ from props.C01 import PUSH_MODEL, FLOATS
 PROP = {
     "module": "Uec.Props.C03",
     "model_modules": ["Uec.Model.PushImpl", "Uec.Model.PushSpec", "Uec.Model.PushWF", "Uec.Lemmas.PushRun", "Uec.Lemmas.PushBound", "Uec.Lemmas.PushWF"],
-    "families": ["push-run"],
+    "families": ["push-run", "push-instr"],
     "trusted_base": [KERNEL, AXIOMS, TIE, RUST, HAND, PUSH_MODEL, FLOATS],
     "assumptions": ["partial: wall-clock termination, memory per step (block unfold O(block), Flush O(size)), allocator aborts and native stack depth of recursive Drop/Clone are runtime facts no theorem here covers; the real runs are under catch_unwind",
                     "usize overflow of the step counter / push_many length is unreachable on real hardware"],
